@@ -192,6 +192,16 @@ impl Alphabet for Alpha {
 }
 
 fn arity_cases() -> Vec<Case> {
+    let mut v = arity_cases_kind(0);
+    // the same product with the function reached through an object (three call routes): the
+    // receiver is bound as `this` and takes no part in the argument count or the rest list
+    for kind in 1..=3 {
+        v.extend(arity_cases_kind(kind));
+    }
+    v
+}
+
+fn arity_cases_kind(kind: u8) -> Vec<Case> {
     let mut v = vec![];
     let names = ["a", "b", "c", "d"];
     for np in 0..=4usize {
@@ -203,11 +213,26 @@ fn arity_cases() -> Vec<Case> {
                 .map(|i| if rest && i == np - 1 { format!("..{}", names[i]) } else { names[i].to_string() })
                 .collect();
             let body: Vec<String> = (0..np).map(|i| format!("print({})", names[i])).collect();
-            let def = format!(
-                "fn t(n) {{\nprint(\"arg\")\nprint(n)\nreturn n\n}}\nfn f({}) {{\nprint(\"called\")\n{}\nreturn \"ret\"\n}}\n",
-                params.join(", "),
-                body.join("\n")
-            );
+            let def = if kind == 0 {
+                format!(
+                    "fn t(n) {{\nprint(\"arg\")\nprint(n)\nreturn n\n}}\nfn f({}) {{\nprint(\"called\")\n{}\nreturn \"ret\"\n}}\n",
+                    params.join(", "),
+                    body.join("\n")
+                )
+            } else {
+                format!(
+                    "fn t(n) {{\nprint(\"arg\")\nprint(n)\nreturn n\n}}\nob := {{\"id\": \"OB\", \"f\": fn ({}) {{\nprint(\"called\")\n{}\nprint(this.id)\nreturn \"ret\"\n}}}}\n{}",
+                    params.join(", "),
+                    body.join("\n"),
+                    if kind == 3 { "g := ob.f\n" } else { "" }
+                )
+            };
+            let callee = match kind {
+                0 => "f",
+                1 => "ob.f",
+                2 => "ob[\"f\"]",
+                _ => "g",
+            };
             for na in 0..=5usize {
                 // every split of the argument list into plain arguments and spread segments:
                 // a bitmask of cut points groups consecutive arguments; every group of size >= 1
@@ -236,8 +261,8 @@ fn arity_cases() -> Vec<Case> {
                         if !valid {
                             continue;
                         }
-                        let src = format!("{}print(f({}))\nprint(\"end\")\n", def, args.join(", "));
-                        v.push(Case::new(src, 2, format!("arity params={} rest={} args={} groups={:?} spreadmask={}", np, rest, na, g, mask)));
+                        let src = format!("{}print({}({}))\nprint(\"end\")\n", def, callee, args.join(", "));
+                        v.push(Case::new(src, 2, format!("arity callee={} params={} rest={} args={} groups={:?} spreadmask={}", callee, np, rest, na, g, mask)));
                     }
                 }
                 // an empty spread in front / behind
@@ -248,7 +273,7 @@ fn arity_cases() -> Vec<Case> {
                     let mut a2 = items.clone();
                     a2.push("[]..".to_string());
                     for a in [a1, a2] {
-                        v.push(Case::new(format!("{}print(f({}))\nprint(\"end\")\n", def, a.join(", ")), 2, format!("arity params={} rest={} args={} with empty spread", np, rest, na)));
+                        v.push(Case::new(format!("{}print({}({}))\nprint(\"end\")\n", def, callee, a.join(", ")), 2, format!("arity callee={} params={} rest={} args={} with empty spread", callee, np, rest, na)));
                     }
                 }
             }
@@ -258,7 +283,7 @@ fn arity_cases() -> Vec<Case> {
 }
 
 pub fn arity_cases_pub() -> Vec<Case> {
-    arity_cases()
+    arity_cases_kind(0)
 }
 
 fn compositions(n: usize) -> Vec<Vec<usize>> {
